@@ -5,7 +5,7 @@ PID = "C12"
 LEAN_MODULE = "Sb.Properties.C12Total"
 THEOREMS = [
     "Sb.C12.phases_land", "Sb.C12.phases_goto_keeping_altitude", "Sb.C12.phases_goto_with_altitude_neck",
-    "Sb.C12.neck_is_vertical", "Sb.C12.runPhases_invalid", "Sb.C12.runPhases_bad_duration", "Sb.C12.msec_invalid",
+    "Sb.C12.neck_is_vertical", "Sb.C12.invalid_action", "Sb.C12.runPhases_invalid", "Sb.C12.runPhases_bad_duration", "Sb.C12.msec_invalid",
     "Sb.C12.msec_negative", "Sb.C12.hold_exact", "Sb.C12.leg_exact", "Sb.C16.appendLineAux_as_segments",
     "Sb.C12.convert_total", "Sb.C12.runPhases_total", "Sb.C12.msec_lt", "Sb.C16.holdForAux_segments", "Sb.C16.holdChunks_le",
 ]
